@@ -127,6 +127,34 @@ func ruleST3(c *Ctx) {
 		c.check(ss.sig == ref, fn, fmt.Sprintf("start-derivation#%d", ord[fn]), c.Pos(ss.cs.Call.Pos()), "search starts from {"+ss.sig+"} like every other caller",
 			"this caller starts the upward search from {"+ss.sig+"} while the other caller(s) use {"+ref+"}: for some spelling of the directory (a symlinked path, a relative --dir) `where` names one store and the commands that read and write use another")
 	}
+	// --dir means "start the search here": the option is interpreted by the search alone. A command that builds a path
+	// out of it by itself (Join(--dir, ".ergo")) disagrees with the search for the spellings the search accepts and it
+	// does not (the .ergo directory itself, a directory below the project root)
+	nLoads := 0
+	for _, f := range c.Fns {
+		if f.Pkg != c.Ergo || f.Blocks == nil {
+			continue
+		}
+		k := 0
+		eachInstr(f, func(r instrRef) {
+			ld, ok := r.In.(*ssa.UnOp)
+			if !ok || ld.Op != token.MUL {
+				return
+			}
+			fa, ok := ld.X.(*ssa.FieldAddr)
+			if !ok || namedTypeName(fa.X.Type()) != "ergo.GlobalOptions" || fieldName(fa.X.Type(), fa.Field) != "StartDir" {
+				return
+			}
+			k++
+			nLoads++
+			problems := c.startDirUses(ld, red)
+			c.check(len(problems) == 0, c.Name(f), fmt.Sprintf("start-dir-use#%d", k), c.Pos(ld.Pos()), "--dir is only tested for emptiness and handed to the upward search",
+				"the --dir option is interpreted outside the store search: "+strings.Join(uniq(problems), "; ")+" - the spellings the search accepts (the .ergo directory itself, a directory inside the project) name a different place here")
+		})
+	}
+	if nLoads == 0 {
+		c.bad(c.Name(red), "start-dir-use", c.FnPos(red), "no read of GlobalOptions.StartDir found in the package (the --dir option is ignored?)")
+	}
 	// transformations are not expected at all: the search itself makes the start absolute
 	for _, ss := range sigs {
 		if strings.Contains(ss.sig, "via:") && len(count) == 1 {
@@ -376,4 +404,90 @@ func ruleOU12(c *Ctx) {
 		}
 	}
 	c.check(usesStruct, c.Name(df), "url-from-struct", c.FnPos(df), "the URL text is (*url.URL).String() of a value carrying the path as data", "the file URL is not produced by url.URL.String(): path characters are not escaped as data")
+}
+
+// startDirUses follows the value of the --dir option forward (phis, local variables, helper parameters and results) and
+// reports every use other than: a comparison with a constant, boxing for a log/debug message, the start argument of
+// the upward search.
+func (c *Ctx) startDirUses(src ssa.Value, search *ssa.Function) []string {
+	var problems []string
+	seen := map[ssa.Value]bool{}
+	work := []ssa.Value{src}
+	for len(work) > 0 && len(seen) < 400 {
+		v := work[0]
+		work = work[1:]
+		if v == nil || seen[v] {
+			continue
+		}
+		seen[v] = true
+		refs := v.Referrers()
+		if refs == nil {
+			continue
+		}
+		for _, r := range *refs {
+			switch x := r.(type) {
+			case *ssa.DebugRef, *ssa.If:
+			case *ssa.Phi:
+				work = append(work, x)
+			case *ssa.MakeInterface:
+				// formatted into a message
+			case *ssa.Store:
+				if x.Val != v {
+					continue
+				}
+				if cell := cellOf(x.Addr); cell != nil {
+					for _, ld := range cellLoads(cell) {
+						work = append(work, ld)
+					}
+					continue
+				}
+				problems = append(problems, "stored at "+c.Pos(x.Pos()))
+			case *ssa.BinOp:
+				if x.Op == token.EQL || x.Op == token.NEQ {
+					continue
+				}
+				problems = append(problems, "operator "+x.Op.String()+" at "+c.Pos(x.Pos()))
+			case *ssa.Return:
+				fn := x.Parent()
+				for i, res := range x.Results {
+					if res != v {
+						continue
+					}
+					for _, cs := range c.callers[fn] {
+						val := cs.Call.Value()
+						if val == nil {
+							continue
+						}
+						if len(x.Results) == 1 {
+							work = append(work, val)
+							continue
+						}
+						for _, rr := range *val.Referrers() {
+							if ex, ok := rr.(*ssa.Extract); ok && ex.Index == i {
+								work = append(work, ex)
+							}
+						}
+					}
+				}
+			case ssa.CallInstruction:
+				cal := calleeOf(x.Common())
+				for i, a := range x.Common().Args {
+					if a != v {
+						continue
+					}
+					if cal != nil && cal == search && i == 0 {
+						continue
+					}
+					if cal != nil && c.InModule(cal) && cal.Blocks != nil && i < len(cal.Params) {
+						work = append(work, cal.Params[i])
+						continue
+					}
+					problems = append(problems, "handed to "+calleeFullName(x.Common())+" at "+c.Pos(x.Pos()))
+				}
+			default:
+				problems = append(problems, fmt.Sprintf("used by %T at %s", r, c.Pos(r.Pos())))
+			}
+		}
+	}
+	return problems
 }
